@@ -19,6 +19,9 @@ HARNESSES = [
 # every recorded finding is fixed in /repo (KNOWN_FINDINGS.txt: nine `fixed:` lines); the check compares with the repaired model only,
 # a regression to any old behaviour is a plain VIOLATION
 VARIANTS = ["repaired"]
+# the model driver gets the implementation's lines: it uses them ONLY to resolve the two choices the property leaves open
+# (zero padding after END in server replies; refuse-or-wrap for payloads beyond the 16-bit lengths) and checks admissibility
+MODEL_NEEDS_IMPL = True
 RULE = ("Structured generators, bytes compared exactly with the Coq model, plus property-level observables "
         "(independent RFC 1071 verification h/u, length consistency l, zero UDP checksum z, gopacket option decode gp, "
         "getter read-back get, DHCPv6 re-parse). Frames: ip4/udp4/ip6/wrap with payload sizes {0,1,2,odd,even,~300,1472, "
